@@ -172,7 +172,9 @@ def main():
 
                 farg = [e["functions"], make_probe({"p1": 2.0, "p2": 3.0}[pname] + (0.5 if key["rounding"] else 0.0) + (0.25 if e["date"] >= "2010" else 0.0))]
             try:
-                res = compute_taxes_and_transfers(data=data, params=e["params"], functions=farg, targets=targets, rounding=bool(key["rounding"]))
+                # target set T2 also carries a user aggregation specification that redefines a BUILT-IN aggregate for this call only
+                extra = {"aggregate_by_group_specs": {"anz_kinder_hh": {"source_col": "erwachsen", "aggr": "sum"}}} if key["targets"] == "T2" else {}
+                res = compute_taxes_and_transfers(data=data, params=e["params"], functions=farg, targets=targets, rounding=bool(key["rounding"]), **extra)
                 dig = result_digest(res)
             except Exception as ex:  # noqa: BLE001
                 exc = type(ex).__name__
